@@ -37,3 +37,38 @@ Qed.
 Example accepted_diff_instance :
   check_C04 (CDiff [4]%nat 1 0 1 1 false true [0;1;4;9]%Q [true;true;true;true] [0;2;4;6]%Q) = true.
 Proof. vm_compute. reflexivity. Qed.
+
+From DF Require Import C04_proofs C08_maps.
+(* transfer of the exactness theorem: on an open direction with the validity restriction switched
+   off, if the recorded grid line through cell i samples a quadratic, the OBSERVED first derivative
+   at that cell is the exact derivative of that quadratic at the cell's position *)
+Theorem accepted_quadratic_exact sh nvdim ax h vals valid obs i c0 c1 c2 x0
+        (ln := line (sh ++ [nvdim]) (of_list (f0 QcOps) (sh ++ [nvdim]) (qcl vals)) ax i) :
+  check_C04 (CDiff sh nvdim ax 1 h false false vals valid obs) = true ->
+  inb (sh ++ [nvdim]) i = true -> (ax < length sh)%nat -> (3 <= nth ax sh 0)%nat ->
+  qc h <> 0%Qc ->
+  (forall j, (j < nth ax sh 0)%nat ->
+     nth j ln 0%Qc = quad QcOps c0 c1 c2 (x0 + fnat QcOps j * qc h)%Qc) ->
+  nth (ravel (sh ++ [nvdim]) i) (qcl obs) 0%Qc
+  = (c1 + (f2 QcOps * c2) * (x0 + fnat QcOps (nth ax i 0%nat) * qc h))%Qc.
+Proof.
+  intros H Hi Hax H3 Hh Hq.
+  rewrite (accepted_diff_cell _ _ _ _ _ _ _ _ _ _ i H Hi). fold ln.
+  assert (Lsh : nth ax (sh ++ [nvdim]) 0%nat = nth ax sh 0%nat) by (apply app_nth1; exact Hax).
+  assert (Lln : length ln = nth ax sh 0%nat).
+  { unfold ln, line. rewrite map_length, iota_length. exact Lsh. }
+  assert (Lv : length (line sh (of_list true sh valid) ax (removelast i)) = nth ax sh 0%nat).
+  { unfold line. rewrite map_length, iota_length. reflexivity. }
+  assert (Hj : (nth ax i 0 < nth ax sh 0)%nat).
+  { rewrite <- Lsh. apply inb_nth; [exact Hi | rewrite app_length; simpl; lia]. }
+  rewrite (diff_line_unrestricted QcOps 1 (qc h) ln _) by congruence.
+  change (Q2Qc 0) with (f0 QcOps).
+  rewrite (d_run_nth1 QcOps ln (qc h) (nth ax i 0%nat)) by lia.
+  assert (F2 : f2 QcOps <> f0 QcOps) by (vm_compute; discriminate).
+  apply (d1_exact_quadratic QcOps QcLaws F2 c0 c1 c2 x0 (qc h) ln Hh); try lia.
+  intros j Hjl. apply Hq. lia.
+Qed.
+
+Example accepted_quadratic_instance :
+  check_C04 (CDiff [4]%nat 1 0 1 1 false false [0;1;4;9]%Q [true;false;true;true] [0;2;4;6]%Q) = true.
+Proof. vm_compute. reflexivity. Qed.
